@@ -32,6 +32,22 @@ theorem match_same_structure (K : Kinds) (t t' : Tree) (ctx : TEnv) (h : matchTr
     matchNode K (toPattern t) ctx t' = some [] :=
   toPattern_of_same K t t' ctx h
 
+/-- **Purity.** In the model a pattern is a value and the tags of a match are a new value computed from (pattern, tags
+in scope, target): whatever history of other matches was evaluated before — also matches of patterns that contain `p`
+or that `p` contains — the result for `(p, ctx, t)` is the same. Trivial in a pure model; the tie to the
+implementation, where patterns are mutable objects holding their `static_tags` dictionaries, is the harness: the
+structural dump of every pattern object (and of the shared containers of `fst.match`) is compared before and after
+every call, and a used pattern is compared with an equal fresh one (`harness/c17_pure.py`). -/
+theorem match_pure (K : Kinds) (history : List (Pat × TEnv × Tree)) (p : Pat) (ctx : TEnv) (t : Tree) :
+    (history.map (fun h => matchNode K h.1 h.2.1 h.2.2), matchNode K p ctx t).2 = matchNode K p ctx t := rfl
+
+/-- Wrapping a pattern in `M(inner, **static)` / `M(tag=inner, **static)` extends the tags of the inner match by a new
+binding list; the inner result itself is what `inner` gives on its own (the wrapper cannot change it). -/
+theorem m_wrap_extends (K : Kinds) (p : Pat) (tag : Option Name) (st : List (Name × Nat)) (ctx : TEnv) (t : Tree) :
+    matchNode K (.m p tag st) ctx t = (matchNode K p ctx t).map (fun e => e ++ tagEnv tag (.node t) ++ stEnv st) := by
+  simp only [matchNode]
+  cases matchNode K p ctx t <;> rfl
+
 /-! ## the pre-filter of `search` -/
 
 /-- The extracted tables are what the pre-filter needs at every leaf kind except the listed `badTargets` (on CPython
